@@ -95,8 +95,9 @@ def m_negative_source_with_rs(case, st, v=None):
             and v["clause"] not in ("C03.NoNaN",):
         if any(c["name"] == v["op"] and _src_neg_rs(c) for c in comps):
             return True
-        if v["clause"] == "C03.Finite":
-            # the diverging iteration of an F1 source fills the rows of everything it supplies with inf as well
+        if v["clause"].startswith("C03."):
+            # the diverging iteration of an F1 source (inf / nan that numpy.allclose "accepts") leaves garbage in the rows
+            # of everything it supplies as well
             by = {c["name"]: c for c in comps}
             seen, front = set(), [v["op"]]
             while front:
